@@ -423,3 +423,386 @@ def run(ctx, rep):
     r153(ctx, rep)
     r154(ctx, rep)
     r155(ctx, rep)
+
+
+# ---------------------------------------------------------------------------
+# additional structural clauses (added after the first round of seeded changes)
+import re as _re
+
+_ID = _re.compile(r"[A-Za-z_][A-Za-z_0-9]*")
+
+
+def _swap_lu(name):
+    if "xl" in name:
+        return name.replace("xl", "xu")
+    if "xu" in name:
+        return name.replace("xu", "xl")
+    return name
+
+
+def _idents(node):
+    return sorted(n.id for n in ast.walk(node) if isinstance(n, ast.Name))
+
+
+def r156(ctx, rep):
+    """lower/upper sibling symmetry: the k-th assignment of a name containing
+    `xl` and the k-th assignment of its `xu` twin read the same variables up to
+    the xl <-> xu renaming."""
+    n = 0
+    for q in PUBLIC + HELPERS:
+        f = ctx.func(q)
+        assigns = {}
+        for node in ast.walk(f.node):
+            if isinstance(node, ast.Assign) and len(node.targets) == 1:
+                t = node.targets[0]
+                base = t
+                while isinstance(base, ast.Subscript):
+                    base = base.value
+                if isinstance(base, ast.Name) and ("xl" in base.id or "xu" in base.id) and base.id not in ("xl", "xu"):
+                    assigns.setdefault(base.id, []).append(node)
+        for name, lst in assigns.items():
+            if "xl" not in name:
+                continue
+            twin = _swap_lu(name)
+            tl = assigns.get(twin, [])
+            lst = sorted(lst, key=lambda x: x.lineno)
+            tl = sorted(tl, key=lambda x: x.lineno)
+            if name.startswith("free_"):
+                # working-set flags: -e_i and +e_i span the same active space, an
+                # asymmetry here does not affect admissibility (observation only)
+                if len(lst) != len(tl):
+                    rep.obl.note(f"OBSERVATION (not a finding): {f.local} clears `{name}` {len(lst) - 1}x but `{twin}` {len(tl) - 1}x (e.g. the upper-bound branch of the rotation loop clears free_xl); the null space is unaffected")
+                continue
+            if len(lst) != len(tl):
+                rep.bad("R15.6", f"{f.local}: {name}/{twin}")
+                rep.finding("R15.6", f, f"{name} x{len(lst)} vs {twin} x{len(tl)}", (lst or tl)[0].lineno, f"`{name}` is assigned {len(lst)} time(s) but its twin `{twin}` {len(tl)} time(s): lower and upper bounds are not treated symmetrically")
+                continue
+            for a, b in zip(lst, tl):
+                n += 1
+                ia = sorted(_swap_lu(x) for x in _idents(a))
+                ib = _idents(b)
+                desc = f"{f.local}:{a.lineno}/{b.lineno} {name} ~ {twin}"
+                if ia == ib:
+                    rep.ok("R15.6", desc)
+                else:
+                    diff = sorted(set(ib) ^ set(ia))
+                    rep.bad("R15.6", desc)
+                    rep.finding("R15.6", f, norm(b)[:120], b.lineno,
+                                f"`{norm(b)[:70]}` is the upper-bound twin of `{norm(a)[:70]}` but does not read the corresponding variables (differs in {diff}): "
+                                f"the limit for one side of the box is computed from the other side's bound")
+    if n < 20:
+        raise AnalysisError(f"only {n} lower/upper twin assignments found (floor 20)")
+
+
+def _lin_terms(e):
+    """E = sum coef_k * vec_k  -> list of (coef expr or None(=1), sign, vec root name)"""
+    out = []
+
+    def root(x):
+        while isinstance(x, ast.Subscript):
+            x = x.value
+        return x.id if isinstance(x, ast.Name) else None
+
+    def walk(x, sign):
+        if isinstance(x, ast.BinOp) and isinstance(x.op, ast.Add):
+            walk(x.left, sign)
+            walk(x.right, sign)
+        elif isinstance(x, ast.BinOp) and isinstance(x.op, ast.Sub):
+            walk(x.left, sign)
+            walk(x.right, -sign)
+        elif isinstance(x, ast.BinOp) and isinstance(x.op, ast.Mult):
+            lr, rr = root(x.left), root(x.right)
+            if rr is not None and isinstance(x.right, (ast.Name, ast.Subscript)) and (lr is None or not _is_vec(lr)):
+                out.append((x.left, sign, rr))
+            elif lr is not None:
+                out.append((x.right, sign, lr))
+            else:
+                out.append((x, sign, None))
+        elif isinstance(x, ast.UnaryOp) and isinstance(x.op, ast.USub):
+            walk(x.operand, -sign)
+        else:
+            r = root(x)
+            out.append((None, sign, r))
+    walk(e, 1)
+    return out
+
+
+_VEC = ("step", "step_proj", "sd", "hess_step", "hess_sd", "aub_step", "aub_sd", "resid", "grad")
+
+
+def _is_vec(name):
+    return name in _VEC
+
+
+def _coef_value(coef, sign, seed):
+    """numeric value of a coefficient expression under a pseudo-random but
+    fixed assignment of its names (checker-side evaluation of a scalar
+    formula, nothing of the repository is executed)"""
+    from .. import minieval
+    if coef is None:
+        return float(sign)
+    names = {}
+    attrs = {}
+    k = 0
+    for sub in ast.walk(coef):
+        if isinstance(sub, ast.Name) and sub.id not in names:
+            k += 1
+            names[sub.id] = 0.37 + 0.11 * ((hash(sub.id) % 97) / 97.0) + 0.01 * seed
+    # subscripts like sin_values[i_max] are opaque scalars
+    class _T(ast.NodeTransformer):
+        def visit_Subscript(self, node):
+            nm = "_sub_" + str(abs(hash(norm(node))) % 10 ** 8)
+            names[nm] = 0.53 + 0.07 * ((hash(norm(node)) % 89) / 89.0) + 0.01 * seed
+            return ast.copy_location(ast.Name(id=nm, ctx=ast.Load()), node)
+    import copy as _copy
+    c2 = _T().visit(_copy.deepcopy(coef))
+    try:
+        return sign * float(minieval.ev(c2, minieval.Env(names, attrs)))
+    except minieval.Unsupported:
+        return None
+
+
+def r157(ctx, rep):
+    """linear images are updated with the coefficients of the step update:
+    step += sum c_k v_k  =>  grad += sum c_k H v_k  and  resid -= sum c_k A v_k"""
+    n = 0
+    for q in PUBLIC[:2]:
+        f = ctx.func(q)
+        # image table: name -> (map, preimage)
+        image = {}
+        for node in ast.walk(f.node):
+            if isinstance(node, ast.Assign) and len(node.targets) == 1 and isinstance(node.targets[0], ast.Name):
+                v = node.value
+                if isinstance(v, ast.Call) and norm(v.func) == "hess_prod" and v.args and isinstance(v.args[0], ast.Name):
+                    image[node.targets[0].id] = ("H", v.args[0].id)
+                if isinstance(v, ast.BinOp) and isinstance(v.op, ast.MatMult) and norm(v.left) == "aub" and isinstance(v.right, ast.Name):
+                    image[node.targets[0].id] = ("A", v.right.id)
+        # rotation blocks: while loops whose body updates step with cos/sin
+        for loop in ast.walk(f.node):
+            if not isinstance(loop, ast.While):
+                continue
+            upd = None
+            for s in loop.body:
+                if isinstance(s, ast.Assign) and len(s.targets) == 1:
+                    base = s.targets[0]
+                    while isinstance(base, ast.Subscript):
+                        base = base.value
+                    if isinstance(base, ast.Name) and base.id == "step" and mentions(s.value, "cos_value"):
+                        upd = s
+            if upd is None:
+                continue
+            v = upd.value
+            if _short(v) == "clip":
+                v = v.args[0]
+            terms = _lin_terms(v)
+            assign_form = isinstance(upd.targets[0], ast.Subscript)
+            delta = {}
+            for coef, sign, vec in terms:
+                if vec is None:
+                    continue
+                delta.setdefault(vec, []).append((coef, sign))
+            # in the assignment form  step[M] = c*step[M] + s*sd[M]  the increment of
+            # `step` is (c - 1); in the increment form  step + (c-1)*step_proj + s*sd
+            # the bare `step` term is the old value
+            for tgt, mapk, sgn in (("grad", "H", 1.0), ("resid", "A", -1.0)):
+                st = None
+                for s in loop.body:
+                    if isinstance(s, ast.AugAssign) and norm(s.target) == tgt and isinstance(s.op, ast.Add):
+                        st = ("aug", s, s.value)
+                    if isinstance(s, ast.Assign) and norm(s.targets[0]) == tgt and mentions(s.value, tgt):
+                        vv = s.value
+                        if _short(vv) in ("maximum",) and len(vv.args) == 2:
+                            vv = vv.args[1] if const_value(vv.args[0]) in (0, 0.0) else vv.args[0]
+                        st = ("assign", s, vv)
+                if st is None:
+                    if tgt == "resid" and q == PUBLIC[0]:
+                        continue
+                    if tgt == "grad" or q == PUBLIC[1]:
+                        rep.bad("R15.7", f"{f.local}: {tgt} update in the rotation loop")
+                        rep.finding("R15.7", f, f"{tgt} not updated with the rotated step", upd.lineno, f"the rotation changes the iterate but `{tgt}` is not updated accordingly")
+                    continue
+                kind, stmt, expr = st
+                tterms = _lin_terms(expr)
+                for seed in (0, 1, 2):
+                    want = {}
+                    for vec, lst in delta.items():
+                        tot = 0.0
+                        bad = False
+                        for coef, sign in lst:
+                            cv = _coef_value(coef, sign, seed)
+                            if cv is None:
+                                bad = True
+                            else:
+                                tot += cv
+                        if bad:
+                            continue
+                        if vec == "step":
+                            if assign_form:
+                                tot -= 1.0
+                            else:
+                                continue  # bare old value in the increment form
+                        want[vec] = tot
+                    got = {}
+                    for coef, sign, vec in tterms:
+                        if vec is None or vec == tgt:
+                            continue
+                        if vec not in image or image[vec][0] != mapk:
+                            got[("?", vec)] = 1.0
+                            continue
+                        cv = _coef_value(coef, sign, seed)
+                        if cv is None:
+                            continue
+                        got[image[vec][1]] = got.get(image[vec][1], 0.0) + cv
+                    ok = all(abs(got.get(vec, 0.0) - sgn * c) < 1e-9 for vec, c in want.items()) and not any(isinstance(k, tuple) for k in got) and set(k for k in got) <= set(want)
+                    if not ok:
+                        break
+                n += 1
+                desc = f"{f.local}:{stmt.lineno} `{tgt}` follows the rotated step through {'the Hessian' if mapk == 'H' else 'the constraint matrix'}"
+                if ok:
+                    rep.ok("R15.7", desc)
+                else:
+                    rep.bad("R15.7", desc)
+                    rep.finding("R15.7", f, norm(stmt)[:140], stmt.lineno,
+                                f"the update of `{tgt}` does not apply the coefficients of the step update `{norm(upd)[:70]}` to the images of the same vectors "
+                                f"({'grad += sum c_k H v_k' if mapk == 'H' else 'resid -= sum c_k A v_k'}): the bookkeeping no longer describes the iterate, "
+                                f"{'later decisions use a wrong gradient' if mapk == 'H' else 'the step lengths to the linear constraints are wrong and a constraint satisfied at the origin can be violated'}")
+    if n < 3:
+        raise AnalysisError(f"only {n} image-update obligations found (floor 3)")
+
+
+def check_stale_loop_vars(ctx, rep, rule, quals):
+    """A per-iteration temporary of a `for` loop must not be read after the
+    loop: its value is the one of the last iteration."""
+    from ..cfg import defs_of
+    n = 0
+    for q in quals:
+        f = ctx.func(q)
+        cfg = ctx.cfg(f)
+        rd = cfg.reaching_defs()
+        for loop in ast.walk(f.node):
+            if not isinstance(loop, ast.For):
+                continue
+            body_nodes = {cfg.by_ast[id(s)] for s in ast.walk(loop) if id(s) in cfg.by_ast and s is not loop}
+            strong = {}
+            for nid in body_nodes:
+                nd = cfg.nodes[nid]
+                for v, st in defs_of(nd).items():
+                    if st:
+                        strong.setdefault(v, set()).add(nid)
+            loop_targets = {x.id for x in ast.walk(loop.target) if isinstance(x, ast.Name)}
+            for var, dnodes in strong.items():
+                if var in loop_targets:
+                    continue
+                for nd in cfg.nodes:
+                    if nd.id in body_nodes or nd.kind in ("entry", "exit", "raise"):
+                        continue
+                    if nd.id == cfg.by_ast.get(id(loop)):
+                        continue
+                    e = nd.expr()
+                    reads = False
+                    for x in (e if isinstance(e, list) else [e]):
+                        if x is None:
+                            continue
+                        for sub in ast.walk(x if isinstance(x, ast.AST) else x.context_expr):
+                            if isinstance(sub, ast.Name) and sub.id == var and isinstance(sub.ctx, ast.Load):
+                                reads = True
+                    if not reads:
+                        continue
+                    defs = rd.get(nd.id, {}).get(var, frozenset())
+                    if defs and defs <= dnodes:
+                        # is it an accumulator (read in the loop before its def)? then fine
+                        n += 1
+                        rep.bad(rule, f"{f.local}:{nd.line} stale `{var}`")
+                        rep.finding(rule, f, f"{var} @ {nd.text()[:80]}", nd.line,
+                                    f"`{var}` is a per-iteration temporary of the loop at line {loop.lineno} but is read after the loop (line {nd.line}): it holds the value of the last iteration, not the one belonging to the selected element")
+        n += 1
+    return n
+
+
+def r159(ctx, rep):
+    """direction-sign masks: the masks selecting the components that move
+    towards a bound compare the direction with a (TINY-relative) zero
+    threshold, never with the bound itself."""
+    from .. import minieval
+    n = 0
+    for q in PUBLIC[:3] + HELPERS:
+        f = ctx.func(q)
+        for node in ast.walk(f.node):
+            if isinstance(node, ast.Assign) and len(node.targets) == 1 and isinstance(node.targets[0], ast.Name) and node.targets[0].id in ("i_xl", "i_xu", "i_ub", "i_slack"):
+                if _in_rotation(node):
+                    continue
+                conj = []
+
+                def split(e):
+                    if isinstance(e, ast.BinOp) and isinstance(e.op, ast.BitAnd):
+                        split(e.left)
+                        split(e.right)
+                    else:
+                        conj.append(e)
+                split(node.value)
+                sign_tests = []
+                for c in conj:
+                    if isinstance(c, ast.Compare) and len(c.ops) == 1 and not mentions(c, "inf"):
+                        sign_tests.append(c)
+                n += 1
+                desc = f"{f.local}:{node.lineno} {norm(node)[:70]}"
+                if not sign_tests:
+                    rep.bad("R15.9", desc)
+                    rep.finding("R15.9", f, norm(node)[:120], node.lineno, "the mask of components moving towards the bound has no sign test on the direction")
+                    continue
+                okk = True
+                for c in sign_tests:
+                    thr = c.comparators[0]
+                    names = {x.id: 1.0 for x in ast.walk(thr) if isinstance(x, ast.Name)}
+                    names["TINY"] = 0.0
+                    class _T(ast.NodeTransformer):
+                        def visit_Subscript(self, nd):
+                            return ast.copy_location(ast.Constant(1.0), nd)
+                        def visit_Call(self, nd):
+                            self.generic_visit(nd)
+                            if (dotted(nd.func) or "").split(".")[-1] in ("abs", "absolute"):
+                                return nd.args[0]
+                            return nd
+                    import copy as _copy
+                    t2 = _T().visit(_copy.deepcopy(thr))
+                    ast.fix_missing_locations(t2)
+                    try:
+                        val = minieval.ev(t2, minieval.Env(names, {}))
+                    except minieval.Unsupported:
+                        val = None
+                    if val is None or abs(val) > 0.0:
+                        okk = False
+                if okk:
+                    rep.ok("R15.9", desc + " - sign test with a TINY-relative zero threshold")
+                else:
+                    rep.bad("R15.9", desc)
+                    rep.finding("R15.9", f, norm(node)[:120], node.lineno,
+                                "the mask of components that move towards a bound compares the direction with the bound itself instead of a (TINY-relative) zero: "
+                                "the set is empty, the step length to the bounds is infinite and the reported value belongs to an unclipped step")
+    if n < 6:
+        raise AnalysisError(f"only {n} direction-sign masks found (floor 6)")
+
+
+def _in_rotation(node):
+    cur = getattr(node, "_parent", None)
+    while cur is not None:
+        if isinstance(cur, ast.While) and any(isinstance(x, ast.Name) and x.id in ("t_bd", "t_min") for x in ast.walk(cur)):
+            return True
+        cur = getattr(cur, "_parent", None)
+    return False
+
+
+_old_run = run
+
+
+def run(ctx, rep):  # noqa: F811
+    _old_run(ctx, rep)
+    rep.rule("R15.6", "lower/upper sibling symmetry of the bound bookkeeping (k-th assignment of *xl* vs *xu* names)")
+    rep.rule("R15.7", "gradient and constraint residuals are updated with the coefficients of the step update applied to the images of the same vectors")
+    rep.rule("R15.8", "no per-iteration temporary of a for loop is read after the loop")
+    rep.rule("R15.9", "masks of components moving towards a bound are sign tests on the direction with a TINY-relative zero threshold")
+    r156(ctx, rep)
+    r157(ctx, rep)
+    k = check_stale_loop_vars(ctx, rep, "R15.8", PUBLIC + HELPERS)
+    rep.ok("R15.8", f"{len(PUBLIC + HELPERS)} solver functions scanned for stale loop temporaries")
+    r159(ctx, rep)
